@@ -294,6 +294,8 @@ func (cs *c15Case) anyDown() bool {
 // inside the send system call, so a plain drain is normally complete; to be safe against a
 // deferred softirq, a flush that reported success is given up to 300 ms for its datagram, and a
 // flush or close that reported an error a 1 ms grace before the queues are read.
+var c15AwaitBudget = 15 * time.Second
+
 func (cs *c15Case) collect(sendReportedOK, grace bool) [][][]byte {
 	out := make([][][]byte, cs.k)
 	if grace {
@@ -306,7 +308,16 @@ func (cs *c15Case) collect(sendReportedOK, grace bool) [][][]byte {
 		out[i] = s.drain()
 		if sendReportedOK && s.up && len(out[i]) == 0 {
 			t0 := time.Now()
-			out[i] = s.await(2 * time.Second)
+			// patient while patience is cheap: on the unchanged tree a datagram is at most late; an implementation that
+			// drops datagrams wholesale would make every flush wait, so the long waits draw on a budget for the whole run
+			wait := 2 * time.Second
+			if c15AwaitBudget <= 0 {
+				wait = 100 * time.Millisecond
+			}
+			out[i] = s.await(wait)
+			if len(out[i]) == 0 {
+				c15AwaitBudget -= time.Since(t0)
+			}
 			cs.c.Cov.Hit("sink.awaited")
 			if len(out[i]) == 0 {
 				cs.c.Cov.Hit("sink.await-timeout")
